@@ -767,6 +767,11 @@ func (g *gen) next(s *sut, sp *spec, i int) *Op {
 		return &Op{K: "offset"}
 	case x < 92:
 		off := pickU(rng, g.offsets(size))
+		if g.c.FS > 0 && size > 0 && size%uint64(g.c.FS) == 0 && rng.Intn(2) == 0 {
+			// the current chunk is full: DiscardUpto(size) must not remove it
+			g.pendingRe = 0
+			return &Op{K: "discard", Off: size}
+		}
 		if rng.Intn(3) > 0 && sp.disc > 0 {
 			off = sp.disc // keep the discarded prefix small, so that most reads stay specified
 		} else if off > size/2 && rng.Intn(2) == 0 {
